@@ -89,6 +89,11 @@ func (s *statsManager) sessionTerminated(clientID string, reason SessionTerminat
 	atomic.AddUint64(&s.totalStats.ConnectionStats.InactiveCurrent, ^uint64(0))
 	s.clientMu.Lock()
 	defer s.clientMu.Unlock()
+	if sts := s.clientStats[clientID]; sts != nil {
+		// the messages the session still held are gone with it
+		atomic.AddUint64(&s.totalStats.MessageStats.QueuedCurrent, -atomic.LoadUint64(&sts.MessageStats.QueuedCurrent))
+		atomic.AddUint64(&s.totalStats.MessageStats.InflightCurrent, -atomic.LoadUint64(&sts.MessageStats.InflightCurrent))
+	}
 	delete(s.clientStats, clientID)
 }
 
